@@ -19,7 +19,8 @@ pub fn gen(rng: &mut Rng, n: usize, sink: &mut Sink) {
                 TOKENS.iter().map(|t| format!("{}:0:1000000", t)).collect::<Vec<_>>().join(",")
             ));
         }
-        let mut collector = user(1);
+        // now and then the collector is the zero address (at deployment, or set later by collector / owner)
+        let mut collector = if rng.chance(1, 8) { vec![0u8; 32] } else { user(1) };
         sink.exec(&format!("deploy gas-service {} {} {}", hex::encode(&owner), hex::encode(&gs), args(&[collector.clone()])));
         let steps = rng.range(10, 40);
         for _ in 0..steps {
@@ -28,6 +29,7 @@ pub fn gen(rng: &mut Rng, n: usize, sink: &mut Sink) {
                 2 => owner.clone(),
                 _ => user(rng.below(6) as u8),
             };
+            let caller = if caller.iter().all(|b| *b == 0) { user(rng.below(6) as u8) } else { caller };
             let r = rng.below(100);
             if r < 45 {
                 // payments
@@ -111,7 +113,8 @@ pub fn gen(rng: &mut Rng, n: usize, sink: &mut Sink) {
                 let a = vec![b"0xtxhash".to_vec(), nat(rng.below(300) as u128), receiver, tok, nat(amt)];
                 sink.exec(&format!("tx {} {} refund 0 - {}", hex::encode(&caller), hex::encode(&gs), args(&a)));
             } else {
-                let newc = user(rng.below(6) as u8);
+                let newc = if rng.chance(1, 6) { vec![0u8; 32] } else { user(rng.below(6) as u8) };
+                let caller = if collector.iter().all(|b| *b == 0) && rng.chance(1, 2) { user(rng.below(6) as u8) } else { caller };
                 let out = sink.exec(&format!("tx {} {} setGasCollector 0 - {}", hex::encode(&caller), hex::encode(&gs), args(&[newc.clone()])));
                 if out.starts_with("ok") {
                     collector = newc;
